@@ -61,5 +61,12 @@ try:
         }
 finally:
     sh(f"git apply -R _out/{mk}.diff")
-json.dump(out, open(f"{wt}/_out/{mk}_confirm.json", "w"), indent=1)
+dst = f"{wt}/_out/{mk}_confirm.json"
+if os.path.exists(dst):  # merge with an earlier confirmation run (checks and tests are usually run separately)
+    old = json.load(open(dst))
+    if not out["checks"] and old.get("checks"):
+        out["checks"] = old["checks"]
+    if "tests" not in out and "tests" in old:
+        out["tests"] = old["tests"]
+json.dump(out, open(dst, "w"), indent=1)
 print(json.dumps(out, indent=1)[:3000])
